@@ -236,6 +236,7 @@ func run(c *mon.Ctx) {
 	// the search is a function of its reader's content whoever else is searching another stream at that moment
 	c.Floor("concurrent.calls", 20000)
 	c.Floor("random.after_a_search_cut_short_by_a_reader_error", 2000)
+	c.Floor("header_at_offset.overlapping_header_in_front_in_the_next_stream", 1000)
 	c.Stream("concurrent-searches", c.N(8, 200), func(i int, r *gen.Rand) {
 		c.Concurrent("packet.Sync on readers of their own", 8, 6000, r, func(q *gen.Rand) string {
 			n := q.Intn(60)
@@ -331,6 +332,26 @@ func run(c *mon.Ctx) {
 				c.Fail("sync:bufio-size-boundary", fmt.Sprintf("bufio(%d): first plausible header at offset %d behind false sync bytes: Sync returned %d, %v and left %d bytes (want offset %d and %d bytes)", sz, want, o, err, len(rest), want, len(s)-want),
 					wit{mon.Hex(s), fmt.Sprintf("bufio(%d)", sz), fmt.Sprintf("off=%d err=%v", o, err), fmt.Sprint("offset ", want)})
 				break
+			}
+		}
+		// the next stream has its header where this one had it - and a plausible header that starts one or two bytes
+		// earlier and overlaps it: the first one counts, wherever the previous search ended
+		if off >= 2 {
+			for back := 1; back <= 2; back++ {
+				s2 := append([]byte{}, s...)
+				if back == 1 {
+					s2[off-1] = 0x47 // 47 | 47 b1 b2: PID 0x07xx, adaptation_field_control from b2
+					s2[off+2] |= 0x10
+				} else {
+					s2[off-2], s2[off-1] = 0x47, 0x01 // 47 01 | 47 b1: PID 0x0147, adaptation_field_control from b1
+					s2[off+1] |= 0x10
+				}
+				if refSync(s2) < off {
+					c.Count("header_at_offset.overlapping_header_in_front_in_the_next_stream")
+				}
+				for kind := 0; kind < 4; kind++ {
+					checkOne(c, s2, kind, r)
+				}
 			}
 		}
 		c.Class(fmt.Sprintf("at-offset/mod188=%d/windows=%d", off%188/47, off/188))
